@@ -129,10 +129,12 @@ def well_conditioned(cf):
         if m is None:
             continue
         w = m.sum_weights.sample_patch_sum()
-        good = np.abs(w.samples) > 1e-9 * np.abs(w.data)[None, :]
+        good = np.abs(w.samples) > 1e-4 * np.abs(w.data)[None, :]
         ok = good if ok is None else (ok & good)
     d = den.sample_patch_sum()
-    return ok & (np.abs(d.samples) > 1e-9 * np.abs(d.data)[None, :])
+    # (a leave-one-out value that keeps less than 1e-4 of the total amplifies the 1e-16 rounding of its terms beyond the 1e-11 the
+    #  comparison allows: ill-conditioned, not compared)
+    return ok & (np.abs(d.samples) > 1e-4 * np.abs(d.data)[None, :])
 
 
 def same_estimates(a, b, rtol, perm=None):
@@ -160,9 +162,23 @@ def same_estimates(a, b, rtol, perm=None):
             ok = close(x["cov"], y["cov"], 1e-10)
         else:
             bins = mask.all(axis=0)
-            ok = close(x["cov"][np.ix_(bins, bins)], y["cov"][np.ix_(bins, bins)], max(rtol, 1e-10)) if bins.any() else True
+            # (a covariance of samples that agree to rounding is itself rounding noise, ~ (1e-16 * |sample|)^2: the comparison
+            #  allows the square of the tolerance of the samples on top of the relative one)
+            c1_, c2_ = x["cov"][np.ix_(bins, bins)], y["cov"][np.ix_(bins, bins)]
+            fs_ = x["cd"].samples[np.isfinite(x["cd"].samples)]
+            floor_ = (1e-11 * (np.abs(fs_).max() if fs_.size else 1.0)) ** 2
+            ok = True
+            if bins.any():
+                f1_, f2_ = np.isfinite(c1_), np.isfinite(c2_)
+                ok = bool(np.array_equal(f1_, f2_) and (not f1_.any() or np.all(
+                    np.abs(c1_[f1_] - c2_[f2_]) <= max(rtol, 1e-10) * np.abs(c1_[f1_]).max() + floor_)))
         if not ok:
-            return "covariance differs"
+            b_ = np.ones(x["cov"].shape[0], dtype=bool) if rtol == 0 else mask.all(axis=0)
+            c1_, c2_ = x["cov"][np.ix_(b_, b_)], y["cov"][np.ix_(b_, b_)]
+            with np.errstate(all="ignore"):
+                dev_ = float(np.nanmax(np.abs(c1_ - c2_))) if c1_.size else float("nan")
+            return (f"covariance differs (compared bins {np.flatnonzero(b_).tolist()}, largest entry {float(np.nanmax(np.abs(c1_))) if c1_.size else 0:.3g}, "
+                    f"largest deviation {dev_:.3g}, cd samples {x['cd'].samples.tolist()} vs {y['cd'].samples.tolist()})")
     return None
 
 
@@ -190,8 +206,29 @@ def run(prop, tier, seed, replay):
                 edges = cfgkw["edges"]
                 zr = (edges[0] - 0.1, edges[-1] + 0.1)
                 sizes = [40, 50, 45, 60]
-                samples = [G.make_sample(rng, field, n=sizes[k], extent_mode=rng.choice(["compact", "wide"]),
+                # extents: by turns random / the largest catalog compact and the others wide / the reverse — which catalog the
+                # patch radii are taken from changes under relabelling and splitting, the result must not
+                ext_plan = [None, ["wide", "wide", "wide", "compact"], None, ["compact", "compact", "compact", "wide"]][ci % 4]
+                samples = [G.make_sample(rng, field, n=sizes[k],
+                                         extent_mode=rng.choice(["compact", "wide"]) if ext_plan is None else ext_plan[k],
                                          zrange=zr, edges=edges, weights=True) for k in range(4)]
+                # every reference sample has one (patch, redshift bin) cell holding a SINGLE object whose weight is not 1 (and one cell
+                # whose objects all carry the same weight 5): a cell's weights count as they are, also when they are all equal
+                s0 = samples[0]
+                z0, w0, p0 = np.asarray(s0["z"], dtype=float), np.asarray(s0["w"], dtype=float), np.asarray(s0["patch"])
+                lo_mid, hi_mid = (edges[0] + edges[1]) / 2, (edges[-2] + edges[-1]) / 2
+                idx0 = np.flatnonzero(p0 == 0)
+                if len(idx0) >= 2 and len(edges) >= 3:
+                    in_last = idx0[(z0[idx0] > edges[-2]) & (z0[idx0] <= edges[-1])]
+                    z0[in_last] = lo_mid
+                    z0[idx0[0]] = hi_mid
+                    w0[idx0[0]] = 3.0
+                    idx1 = np.flatnonzero(p0 == (1 if N > 1 else 0))
+                    same = idx1[(z0[idx1] > edges[0]) & (z0[idx1] < edges[1])]
+                    if N > 1:
+                        w0[same] = 5.0
+                    s0["z"], s0["w"] = z0, w0
+                    ck.count("stratum=single-object-cell")
                 if ci % 2 == 1:
                     # stratum: the unknown sample is a bootstrap resample of itself (rows drawn with replacement: the same
                     # position occurs several times), unweighted every other time — every row counts, also a repeated one
@@ -248,7 +285,7 @@ def run(prop, tier, seed, replay):
                             # tiny factors first (weights in physical units): every run evaluates at least one of them
                             fac = [1e-9, 4.0, 3.0, 1e6, 0.125][scale_count % 5]
                             scale_count += 1
-                            which = rng.choice([0, 1, 3])
+                            which = [0, 1, 0, 3, 0][(scale_count - 1) % 5] if ci % 2 == 0 else rng.choice([0, 1, 3])
                             if samples[which]["w"] is None:
                                 which = 0
                             s2 = [dict(s, w=s["w"] * fac) if k == which else s for k, s in enumerate(samples)]
